@@ -64,6 +64,7 @@ contract("nucs/solvers/bound_consistency_algorithm.py::bound_consistency_algorit
 
 # ------------------------------------------------------------------ acceptance variant (C01 composition for full-mask constraints)
 BASE = REG.contracts["nucs/solvers/bound_consistency_algorithm.py::bound_consistency_algorithm"]
+SOLVER_STATS_SAME_BC = "forall(k, 0, 13, implies(k == STATS_IDX_SOLVER_CHOICE_NB or k == STATS_IDX_SOLVER_CHOICE_DEPTH or k == STATS_IDX_SOLVER_SOLUTION_NB, statistics[k] == old(statistics)[k]))"
 ACC_OUTER = [
     ("C01.K", ACC_K(SS, "triggered_propagators", "prop_idx")),
     ("C01.J", ACC_J(SS)),
@@ -89,11 +90,10 @@ lo3 = dict(BASE.loops[3]); lo3["invariant"] = list(lo3["invariant"]) + ACC_THIRD
 for _d in (lo1,):
     _d.pop("decreases", None); _d.pop("step_hints", None); _d.pop("hints", None); _d.pop("step_ensures", None)
 contract("nucs/solvers/bound_consistency_algorithm.py::bound_consistency_algorithm", variant="acc", types=ENGINE_T, props=["C01"],
-    requires=list(BASE.requires) + [ALLFULL, ("C01.K0", ACC_K(SS, "triggered_propagators", "-1")), ("C01.J0", ACC_J(SS))],
+    requires=list(BASE.requires) + ACC_REQ,
     calls=BASE.calls, ghost_calls=BASE.extra["ghost_calls"], ghost=BASE.ghost, defs=BASE.extra["defs"], call_ghosts=BASE.extra["call_ghosts"],
     ghost_results={"pop_propagator": "q0"}, ghost_init={"dch": 0},
     modifies=BASE.modifies, loops={1: lo1, 2: lo2, 3: lo3},
-    ensures=CA_FRAME + [CA_SHRINK, CA_STATUS, CA_BOUND, CA_UNBOUND, ("C17.others", OTHER_STATS)] + [("C01.accept", f"implies(result != PROBLEM_INCONSISTENT, forall(p, 0, P, implies({NEs}[{TOP}, p] and onpoint({SS}, {TOP}, p), rel_holds(p))))"),
-             ("C01.J", f"implies(result != PROBLEM_INCONSISTENT, {ACC_J(SS)})"),
-             ("C01.queue_empty", "implies(result != PROBLEM_INCONSISTENT, forall(p, 0, P, implies(triggered_propagators[p], False) or True))")],
+    # everything the acceptance interface (ConsistencyAlgAcc, engine_search.py) promises, literally, plus BC's stronger frame
+    ensures=CA_FRAME + CA_FRAME_IFACE + [CA_SHRINK, CA_STATUS, CA_BOUND, CA_UNBOUND, ("C17.others", OTHER_STATS), ("C17.solver_stats", SOLVER_STATS_SAME_BC)] + ACC_ENS,
     tags={"C01": ["C01"]}, arities=[], timeout_ms=200000)
